@@ -32,6 +32,7 @@ if [ $needrace = 1 ]; then
   export ICESIM_RACE_BIN=/verif/bin/icesim-eval-$id-race
 fi
 mkdir -p seeded/$id
+export ICESIM_REPLAY_DIR=/verif/seeded/$id/replays-tmp; rm -rf $ICESIM_REPLAY_DIR
 detected=""
 : > seeded/$id/check_output.txt
 for p in $props; do
@@ -54,5 +55,6 @@ m.update({"seeded_id":"$id","confirmed":{"patch_applies":"$res_apply","baseline_
 json.dump(m,open('/verif/seeded/$id/meta.json','w'),indent=1)
 print("$id", m["property"], "baseline_ok=%s"%m["confirmed"]["baseline_tests_pass_with_change"], "demo_with=[%s]"%m["confirmed"]["demo_with_change"], "demo_without=[%s]"%m["confirmed"]["demo_without_change"], "DETECTED_BY=", m["detected_by"])
 PY
+rm -rf /verif/seeded/$id/replays-tmp
 git -C /repo worktree remove --force $wt
 rm -f /tmp/eval-$id.mod /tmp/eval-$id.sum bin/icesim-eval-$id bin/icesim-eval-$id-race
